@@ -427,6 +427,26 @@ theorem resolve_spec (U : Universe) (rs : List Resolver) (roots : List (Coord ×
     simp only [Res.ok.injEq]
     exact mediation_result _ forest
 
+/-- **breadth-first order without duplicates**: the resolved list is the level-order listing of a forest obtained from
+the full dependency forest of the roots by deleting whole subtrees, and no (group, artifact, classifier, type) occurs
+twice in it -/
+theorem resolve_breadth_first_nodup (U : Universe) (rs : List Resolver) (roots : List (Coord × Scope)) (l : List Found)
+    (h : Resolves U rs roots l) :
+    ∃ full kept, TreesFor (DepTreeOf U rs) roots full ∧ Pruned full kept ∧ l = levelOrder kept ∧
+      (l.map (fun f => f.coord.collisionId)).Nodup := by
+  obtain ⟨n, hn⟩ := h
+  unfold resolve at hn
+  cases h1 : depForest U rs n roots with
+  | err => rw [h1] at hn; cases hn
+  | fuel => rw [h1] at hn; cases hn
+  | ok forest =>
+    rw [h1] at hn
+    simp only [Res.ok.injEq] at hn
+    rw [depForest_eq] at h1
+    refine ⟨forest, cleanUp forest, treesFor_of_mapRes (fun p t ht => ⟨n, ht⟩) _ _ h1, mediation_closed _ forest, ?_, ?_⟩
+    · rw [← hn, bfs_levelorder]
+    · rw [← hn]
+      exact bfs_order_nodup _ forest
 /-- on an acyclic universe — a rank function on coordinates that decreases from a POM to its parent, to the BOMs it
 imports and from an artifact to the dependencies of its effective POM — resolution terminates: fuel
 `maxRank + 2` always gives an answer (`ok` or `err`), which by fuel independence is the answer -/
